@@ -153,3 +153,108 @@ def c07_r3(ctx, f, rid="C07.R3"):
     for why, insts in sorted(und.items()):
         ctx.abstain(rid, "%s (%d case(s), e.g. %s)" % (why, len(insts), insts[0]), where_fn(fn))
     return not und
+
+
+# ---------------------------------------------------------------------------------------------------------------------- C07.R4
+# The division for EVERY block content: the block bytes are free symbols, every byte the routine computes is a GF(2^8)-linear form
+# over them (gfdom.py), the branch on a zero coefficient is evaluated both ways and merged.  This mechanises the induction of
+# DESIGN 7.3: what C07.R3 shows on a basis and on samples, this shows for all 256^n contents of each block length.
+
+def _expected_rows(n, d):
+    """rows[k][j] = coefficient of block byte k in EC codeword j  (the remainder of x^(n-1-k) . x^d by g)"""
+    g = ref.generator(d)  # monic, highest first
+    low = g[1:]
+    r = list(low)  # x^d mod g
+    rows = [None] * n
+    for k in range(n - 1, -1, -1):
+        rows[k] = list(r)
+        t = r[0]
+        r = r[1:] + [0]
+        if t:
+            for j in range(d):
+                r[j] ^= ref.gf_mul(low[j], t)
+    return rows
+
+
+def _job4(job):
+    from . import gfdom
+    d, n, v, l = job
+    f = _G["facts"]
+    pe = peval.PEval(f, max_steps=400_000_000)
+    g = pe.call("hardcode::get_polynomial", [mk_enum(VERSION, "V%02d" % v), mk_enum(ECL, l)])
+    if g.kind != "ret" or g.value == TOP:
+        return job, ("top", "get_polynomial does not fold: %s" % g.why)
+    gv = peval._deref_all(pe, None, g.value) if g.value[0] != "ref" or g.value[1][0] == "const" else None
+    items = peval._seq_items(pe, gv) if gv is not None else None
+    if items is None or any(x == TOP or x[0] != "int" for x in items):
+        return job, ("top", "get_polynomial does not return a known byte slice")
+    glen = len(items)
+    if glen != d + 1:
+        return job, ("bad", "generator-length", d + 1, glen)
+    pe.gf = gfdom.GF()
+    pe.memo = {}
+    r = pe.call("polynomials::division", [("ref", ("const", ("array", gfdom.atoms(n)))), ("ref", ("const", ("array", tuple(items))))])
+    if r.kind == "diverge":
+        return job, ("diverge", r.why)
+    if r.kind != "ret" or r.value == TOP:
+        return job, ("top", r.why or "division does not fold with a symbolic block")
+    if r.assumed:
+        return job, ("top", "division with a symbolic block relies on an unproved check: %s" % r.assumed[0])
+    res = peval._seq_items(pe, r.value)
+    if res is None or len(res) < 256 - glen + d:
+        return job, ("top", "division does not return an array the interleaver's cells can be read from")
+    rows = _expected_rows(n, d)
+    for j in range(d):
+        cell = res[256 - glen + j]
+        fm = gfdom.form_of(cell)
+        if fm is None:
+            return job, ("top", "EC codeword %d is not a linear form over the block bytes" % j)
+        got = dict(fm[1])
+        if fm[0] != 0:
+            return job, ("bad", "codeword %d/constant" % j, 0, fm[0])
+        for k in range(n):
+            if got.get(k, 0) != rows[k][j]:
+                return job, ("bad", "coefficient", "codeword %d, block byte %d: %d" % (j, k, rows[k][j]), got.get(k, 0))
+    return job, ("ok", pe.gf.branches, pe.gf.lookups)
+
+
+def c07_r4(ctx, f, rid="C07.R4"):
+    ctx.rule(rid, "block division for every block content: with the block bytes as free symbols and every computed byte a GF(2^8)-linear "
+                  "form over them (branch on a zero coefficient evaluated both ways and merged; log/antilog tables recognised by "
+                  "content), each EC codeword the interleaver reads is the linear form of the remainder of block(x).x^degree modulo "
+                  "g(x) - for every generator degree and every block length in use")
+    fn = anchor_fn(ctx, rid, f, "polynomials::division")
+    gp = anchor_fn(ctx, rid, f, "hardcode::get_polynomial")
+    if not fn or not gp:
+        return None
+    _G["facts"] = f
+    pairs = _pairs()
+    jobs = [(d, n) + pairs[d][n] for d in sorted(pairs) for n in sorted(pairs[d])]
+    mp = multiprocessing.get_context("fork")
+    with mp.Pool(min(16, os.cpu_count() or 1)) as pool:
+        res = pool.map(_job4, sorted(jobs, key=lambda j: -j[0] * j[1]), chunksize=1)
+    n_ok = 0
+    und, bad = {}, {}
+    for (d, n, v, l), out in res:
+        inst = "degree %d / block length %d (V%02d-%s)" % (d, n, v, l)
+        if out[0] == "ok":
+            n_ok += 1
+        elif out[0] == "top":
+            und.setdefault(out[1], []).append(inst)
+        elif out[0] == "diverge":
+            e = bad.setdefault("panics", {"insts": [], "expected": "a remainder", "found": out[1]})
+            e["insts"].append(inst)
+        else:
+            e = bad.setdefault(out[1].split(",")[0].split(" ")[0], {"insts": [], "expected": out[2], "found": out[3]})
+            e["insts"].append(inst)
+    if n_ok:
+        ctx.ok(rid, "%d (degree, block length) pairs: all EC codewords are the remainder's linear forms, for every block content" % n_ok, n=n_ok)
+    for key, e in sorted(bad.items()):
+        ctx.fail(rid, "polynomials::division/symbolic/%s" % key, where_fn(fn), fn.path, "%s for %d (degree, length) pair(s): %s%s" % (
+            key, len(e["insts"]), "; ".join(e["insts"][:3]), " ..." if len(e["insts"]) > 3 else ""),
+            "with the block bytes free, an EC codeword is not the GF(2^8)-linear combination of block bytes that the remainder of "
+            "block(x).x^degree by the generator prescribes: some block content gets wrong error-correction codewords",
+            expected=e["expected"], found=e["found"])
+    for why, insts in sorted(und.items()):
+        ctx.abstain(rid, "%s (%d case(s), e.g. %s)" % (why, len(insts), insts[0]), where_fn(fn))
+    return bool(n_ok) and not und and not bad
